@@ -347,7 +347,10 @@ CLAIMED["C09"] = (
     "back_color is the ColorFormat assignment on the colour it reads and leaves the other colour and the pattern alone; stop "
     "assignments keep the number of stops, the angle and every other stop; after ANY history the kind is the one the last "
     "type-changing call asked for.  Compared with the real FillFormat of shapes, lines, fonts and table cells after every "
-    "call (outcome, stored element, readers), each call through a held or a new proxy.",
+    "call (outcome, stored element, readers), each call through a held or a new proxy.  shape.adjustments (Model/Adjust, "
+    "Props/C09A): index i reads v after adjustments[i] = v and every other adjustment what it read before, for ANY guides "
+    "(missing, repeated, foreign names), after any history through any number of proxies (run_read); compared with the real "
+    "collection on foreign guide lists.",
     "Property table and domains are written by hand from the docstrings (trusted input); couplings documented by the "
     "library are excepted from independence; floats are dyadic rationals in the exact comparison.  Seven enum-alias "
     "findings (shared with C20) are listed.",
